@@ -19,7 +19,7 @@ TRACKED_ROUTES = [
     "setitem_index", "setitem_slice", "setitem_mask", "setitem_fancy", "setitem_ellipsis",
     "iadd", "isub", "imul", "itruediv", "ifloordiv", "imod", "ipow",
     "ilshift", "irshift", "iand", "ior", "ixor", "imatmul",
-    "fill", "put", "sort", "partition", "byteswap_inplace", "np_put", "shuffle", "idiom_slice_iadd", "idiom_col_imul",
+    "fill", "put", "sort", "partition", "byteswap_inplace", "np_put", "shuffle", "idiom_slice_iadd", "idiom_col_imul", "imul_neg",
 ]
 # routes numpy offers that bypass every overridden method (recorded findings on the unchanged tree)
 UNTRACKED_ROUTES = [
@@ -38,7 +38,12 @@ OP_KINDS = ["derive_view", "derive_copy", "write_tracked", "write_untracked", "h
 def _initial(kind, n, salt):
     r = np.random.RandomState(salt % (2**32))
     if kind == "f":
-        return np.round(r.uniform(-3, 3, (n, 3)), 3) + 0.125
+        out = np.round(r.uniform(-3, 3, (n, 3)), 3) + 0.125
+        if salt % 3 == 0:
+            out[:, 2] = 0.0  # a flat drawing: a whole column of exact zeros (their sign bit is part of the bytes)
+        elif salt % 3 == 1:
+            out[0, 0] = 0.0
+        return out
     if kind == "i":
         return r.randint(0, max(n, 4), (n, 3)).astype(np.int64)
     return r.randint(0, 255, (n, 4)).astype(np.uint8)
@@ -124,6 +129,10 @@ def _write(route, x, mir, p):
         x -= _val(x, p.get("d", 1)) if x.dtype.kind == "f" else 1 + p.get("d", 1) % 5
     elif route == "imul":
         x *= 3
+    elif route == "imul_neg":
+        if x.dtype.kind == "u":
+            raise Inapplicable()
+        x *= -1  # mirrors a flat mesh: 0.0 becomes -0.0, one bit per zero
     elif route == "itruediv":
         if x.dtype.kind != "f":
             raise Inapplicable()
@@ -278,7 +287,7 @@ class C02(World):
         return {
             "weights": w,
             "pool": pool,
-            "context": rng.choice(CONTEXTS),
+            "context": rng.choice(CONTEXTS + ["store_members"]),
             "n": rng.choice([2, 3, 4, 6]),
             "n_ops": rng.choice([2, 3, 4, 5, 6, 8, 12]),
             "plain_views": pool == "mixed" or rng.random() < 0.3,
@@ -286,6 +295,8 @@ class C02(World):
         }
 
     def generate(self, rng, config):
+        if config["context"] == "store_members":
+            return self._generate_store(rng, config)
         ops = []
         w = config["weights"]
         nh = 1  # number of handles that will exist (root = 0); derive ops may be skipped at run time
@@ -317,6 +328,100 @@ class C02(World):
                 op["v"] = rng.randrange(1, 200)
             ops.append(op)
         return {"config": config, "ops": ops}
+
+    # ------------------------------------------------------------------ containers with several members
+    STORE_KINDS = ["datastore", "texture_channels", "mesh_store"]
+
+    def _generate_store(self, rng, config):
+        ops = []
+        for _ in range(config["n_ops"]):
+            k = rng.choice(["write", "write", "swap", "equalise", "reassign_equal", "check", "check", "member_hash"])
+            ops.append({"op": k, "rs": rng.randrange(2**31), "m": rng.randrange(2), "route": rng.choice(["setitem_index", "setitem_slice", "iadd", "fill", "imul", "sort"]), "v": rng.randrange(1, 200), "d": rng.randrange(1, 9),
+                        "a": rng.randrange(4), "idx": [rng.randrange(6), rng.randrange(4)]})
+        return {"config": dict(config, store=rng.choice(self.STORE_KINDS), equal_start=rng.random() < 0.3), "ops": ops}
+
+    def _execute_store(self, program, ctx):
+        """A container whose hash is built from the hashes of several tracked members: its hash must follow the bytes of every member -
+        also when two members hold equal bytes, exchange their contents, or receive the same write."""
+        import trimesh
+        from trimesh.caching import DataStore
+
+        cfg = program["config"]
+        seed = program.get("seed", 0)
+        n = max(cfg["n"], 4)
+        kind = cfg.get("store", "datastore")
+        width = 2 if kind == "texture_channels" else 3
+        A = np.round(np.random.RandomState(seed % (2**32)).uniform(0, 1, (n, width)), 3)
+        B = A.copy() if cfg.get("equal_start") else np.round(np.random.RandomState((seed + 1) % (2**32)).uniform(0, 1, (n, width)), 3)
+        keys = {"datastore": ("a", "b"), "texture_channels": ("uv", "uv_1"), "mesh_store": ("vertices", "vertex_normals")}[kind]
+
+        def build(a, b):
+            if kind == "datastore":
+                ds = DataStore()
+                ds[keys[0]], ds[keys[1]] = np.array(a), np.array(b)
+                return ds, ds, ds
+            if kind == "texture_channels":
+                vis = trimesh.visual.TextureVisuals(uv=np.array(a))
+                vis.vertex_attributes[keys[1]] = np.array(b)
+                return vis, vis.vertex_attributes, vis
+            # the mesh data store with a second float member of the same shape (supplied vertex normals live in it)
+            m = trimesh.Trimesh(vertices=np.array(a), faces=np.array([[0, 1, 2], [0, 2, 3]]), process=False)
+            m._data[keys[1]] = np.array(b)
+            return m, m._data, m._data
+
+        obj, store, hashed = build(A, B)
+        mir = [A.copy(), B.copy()]
+        seen = {}
+
+        def check(tag):
+            got = hashed.__hash__()
+            want = build(mir[0], mir[1])[2].__hash__()
+            ctx.count("check:store_hash")
+            if got != want:
+                ctx.fail("container", kind, f"{tag}: store hash {got} != hash of a freshly built equal store {want}")
+            key = (mir[0].tobytes(), mir[1].tobytes())
+            for k2, h2 in seen.items():
+                if (k2 == key) != (h2 == got):
+                    ctx.fail("container", kind + ("-hash-changed-without-byte-change" if k2 == key else "-hash-blind-to-byte-change"), f"{tag}: store hash {got} vs earlier {h2} for {'the same' if k2 == key else 'different'} member bytes")
+            seen[key] = got
+
+        check("initial")
+        for step, op in enumerate(program["ops"]):
+            ctx.step = step
+            k, m = op["op"], op["m"]
+            arr = [store[keys[0]], store[keys[1]]]
+            try:
+                if k == "write":
+                    snap = mir[m].copy()
+                    _write(op["route"], mir[m], snap, op)
+                    _write(op["route"], arr[m], snap, op)
+                elif k == "swap":
+                    tmp = np.array(arr[0])
+                    arr[0][...] = arr[1]
+                    arr[1][...] = tmp
+                    mir[0], mir[1] = mir[1].copy(), mir[0].copy()
+                elif k == "equalise":
+                    arr[1 - m][...] = arr[m]
+                    mir[1 - m] = mir[m].copy()
+                elif k == "reassign_equal":
+                    store[keys[1 - m]] = np.array(mir[m])
+                    mir[1 - m] = mir[m].copy()
+                elif k == "member_hash":
+                    arr[m].__hash__()
+                elif k == "check":
+                    check(f"after {program['ops'][step - 1]['op'] if step else 'build'}")
+            except Inapplicable:
+                ctx.count("skip:inapplicable")
+                continue
+            for i in (0, 1):
+                if np.asarray(store[keys[i]]).tobytes() != mir[i].tobytes():
+                    raise HarnessError(f"store mirror {i} diverged after {k}")
+            ctx.count("op:store_" + k)
+            ctx.steps_sim += 1
+            ctx.reach("store", kind, k, op.get("route") if k == "write" else "")
+            ctx.event(step, k, kind)
+        ctx.step = "final"
+        check("final")
 
     # ------------------------------------------------------------------ world construction
     def _build(self, cfg, seed):
@@ -431,6 +536,8 @@ class C02(World):
         from trimesh.caching import TrackedArray, hash_fast
 
         cfg = program["config"]
+        if cfg["context"] == "store_members":
+            return self._execute_store(program, ctx)
         cont, root, data = self._build(cfg, program.get("seed", 0))
         if not isinstance(root, TrackedArray):
             ctx.fail("type", "root-not-tracked", f"{cfg['context']}: {type(root).__name__}")
